@@ -12,6 +12,11 @@ mkdir -p "$SCR/repo" || exit 2
 rsync -a --delete --exclude .git --exclude '*_test.go' --exclude node_modules --exclude bazel-'*' --exclude /pkg/verifsim "$REPO"/ "$SCR/repo/" || exit 2
 mkdir -p "$SCR/repo/pkg/verifsim"
 rsync -a "$HERE/sim/" "$SCR/repo/pkg/verifsim/" || exit 2
+# Dependencies of the worlds that the repository itself does not have: they are
+# added to the scratch copy's go.mod only (never to $REPO). The exact version is
+# in the module cache; with -mod=mod and GOSUMDB=off the go command adds the
+# go.sum lines from the cache, no network involved.
+(cd "$SCR/repo" && go mod edit -require=github.com/anishathalye/porcupine@v1.3.0) || { echo "build.sh: cannot add the porcupine requirement to the scratch go.mod" >&2; exit 2; }
 if [ ! -x "$HERE/bin/simrewrite" ] || [ "$HERE/simrewrite/main.go" -nt "$HERE/bin/simrewrite" ]; then
   (cd "$HERE/simrewrite" && go build -o "$HERE/bin/simrewrite" .) || { echo "build.sh: cannot build simrewrite" >&2; exit 2; }
 fi
